@@ -248,16 +248,66 @@ PROPS = {
     },
     "C18": {
         "n": {"quick": 250, "thorough": 6000},
-        "cone": ["Bytes", "Regex", "Generated", "Channel", "Replay"],
+        "cone": ["Bytes", "Regex", "Generated", "Channel", "ChanTrace", "ChanTraceLemmas", "Replay"],
         "rx": True,
         "rule": "generic.Driver.SendWithCallbacks over the simulated transport and a scripted dialogue device: callback lists (contains / not-contains / "
                 "regex / case sensitivity / once / complete / next-timeout / answers written by the callback), dialogues whose texts make several triggers "
                 "true in different orders, read segmentations; the transport log is replayed by the model; compared: sequence of (callback index, "
                 "argument), result, error class, writes; non-trivial = some callback ran",
-        "level_text": "Model of Callback.check / handleCallbacks / executeCallback as a program of the Channel interpreter; tied to the code by replaying "
-                      "the logged schedule of each real run (trace of invocations, result, error). Theorems over the callback loop are in progress "
-                      "(see DESIGN.md); the deciding evidence today is the checked correspondence plus the property oracle.",
-        "level_note": "Theorem coverage for C18 is partial (trigger predicate equivalence only); see DESIGN.md.",
+        "level_text": "Theorems C18_* over every path of SendWithCallbacks (hence every execution): the trigger is the property's; every callback that "
+                      "runs had its trigger true on exactly the output it received and is the first such in list order; no callback runs "
+                      "otherwise; once-callbacks run at most once; success = a complete-callback ran and the whole dialogue is returned; otherwise "
+                      "timeout. Tied to the code by replaying real runs (sequence of (index, argument), result, error class).",
+        "level_note": "The recursion of handleCallbacks is bounded by fuel 64 in the model. Trusted: kernel, generated regex ASTs + RX, extraction, harness.",
+    },
+    "C10": {
+        "n": {"quick": 240, "thorough": 8000},
+        "cone": ["Bytes", "Regex", "Generated", "Channel", "ChanTrace", "ChanTraceLemmas", "Replay"],
+        "rx": True,
+        "rule": "generic.Driver.Open over a simulated transport that requests in-channel ssh / telnet login, against a scripted login device: "
+                "banners, prompt spellings accepted by the patterns, 0-3 rejections, passphrase prompts, ssh client failure messages, silence; "
+                "banner lines delivered whole (the property's segmentation restriction), prompts cut bytewise; the logged schedule is replayed by "
+                "the model of channel/auth.go + Channel.Open; compared: open error class, every write with its redaction flag, the first read "
+                "after open (login bytes kept). Oracle: outcome per the dialogue, credential sent only to its prompt, <= 2 each, transport closed "
+                "on failure. Non-trivial = more than one turn.",
+        "level_text": "Theorems C10_* over every path of the login programs (and, by run_has_trace, every execution): credentials sent at most the "
+                      "generated maximum, always redacted, only directly after a read on which their prompt pattern matched; success iff the "
+                      "shell prompt matched; (max+1)-th prompt -> authentication error; ssh failure message -> connection error; silence -> timeout; "
+                      "Open requeues exactly the login bytes. Tied to the code by replaying real login dialogues.",
+        "level_note": "Hypothesis of the property: no read boundary makes a banner prefix look like a login prompt (banner lines are whole atoms in "
+                      "the harness). The model bounds the login loop by fuel (a hostile device that never matches anything ends in EOperation in "
+                      "the model, in a timeout in the code); 'transport closed on failure' is observed, not modelled.",
+    },
+    "C11": {
+        "n": {"quick": 240, "thorough": 8000},
+        "cone": ["Bytes", "Regex", "Generated", "Channel", "Network", "ChanTrace", "ChanTraceLemmas", "Replay"],
+        "rx": True,
+        "rule": "the login dialogues of C10 and privilege escalations (device asks / grants without asking / refuses) run with a logger at "
+                "debug/info/critical and a channel log attached; secrets include format verbs, regex metacharacters, non-ASCII and the literal "
+                "'redacted'; every log line and the channel log are searched for every secret; compared with the model: which writes were "
+                "logged as redacted. Non-trivial = more than one turn / every escalation.",
+        "level_text": "Noninterference theorems C11_*: programs that differ only in the payload of redacted writes (login with other credentials, "
+                      "escalation / AcquirePriv / SendCommand with another secondary secret, interactive sends with other hidden inputs) produce, "
+                      "on every schedule, the same visible log (what Channel.Write and the loggers receive) against a device whose reactions do "
+                      "not depend on what is typed. Tied to the code by redaction flags of real runs and a substring search of all log output.",
+        "level_note": "Assumes the device does not echo secrets (property text). ssh argv independence of the password: C14. Platform on-open steps "
+                      "with redacted writes: exercised under C17/C19 sessions.",
+    },
+    "C12": {
+        "n": {"quick": 240, "thorough": 8000},
+        "cone": ["Bytes", "Regex", "Generated", "Channel", "Network", "ChanTrace", "ChanTraceLemmas", "Replay"],
+        "rx": True,
+        "rule": "SendInteractive dialogues (1-5 events, visible/hidden, with/without expected response, completion patterns) against a scripted "
+                "device whose reactions become readable only after a delay (0 / 0.3 / 1.5 ms) so that typing ahead is observable (bytes delivered "
+                "at each write are recorded); SendInput with delayed echo, eager and not; privilege escalation against a device that asks for "
+                "the secret / grants without asking / refuses. The logged schedule is replayed by the model; compared: result, writes with "
+                "redaction flags, cached level. Oracle: input k+1 only after everything up to event k's response was delivered; return after "
+                "echo; the secret never arrives at a command prompt.",
+        "level_text": "Theorems C12_* over every path (hence every execution): shape of interactive sends (each input only after the read for the "
+                      "previous event returned; hidden inputs redacted, no echo read), return only after the echo read, and the secondary secret "
+                      "written only directly after a read on which the escalation prompt matched and no completion pattern did.",
+        "level_note": "C12_secret_guarded carries the hypothesis that a completion pattern matching the search window also matches the whole buffer "
+                      "(true for line-anchored patterns when the window starts at a line boundary); C12_window_refuted shows why.",
     },
     "C13": {
         "n": {"quick": 400, "thorough": 20000},
